@@ -779,10 +779,22 @@ package router
 //@   trusted
 //@   modifies nothing
 //@   ensures (err == nil) == (s != nil)
+// startFastHttpServer: like the net/http listener, connections are admitted by the limiter (connection cost 3)
+// before they reach the server: it serves on the admission-wrapped listener.
+//@ func newListener(l net.Listener, logger *zerolog.Logger, limiter *resourceLimiter, connCost int) (r *listener)
+//@   props C15
+//@   modifies nothing
+//@   ensures r != nil && fresh(r) && r.Listener == l && r.logger == logger && r.limiter == limiter && r.connCost == connCost
 //@ func (r *router) startFastHttpServer(cfg *ServerConfig) (s *fasthttp.Server, err error)
-//@   trusted
+//@   props C15 C18
+//@   requires routerReady(r) && cfg != nil
+//@   ghost nWrap int = 0
+//@   oncall newListener: nWrap = nWrap + 1
 //@   modifies nothing
 //@   ensures (err == nil) == (s != nil)
+//@   ensures [C15:connections-are-admitted-by-the-limiter] err == nil ==> nWrap == 1
+//@   callsite newListener: [C15:connection-cost] arg2 == r.limiter && arg3 == 3
+//@   callsite go: [C15:serves-on-the-admitting-listener] nWrap == 1
 //@ func (r *router) fatal(msg string, err error)
 //@   trusted
 //@   modifies nothing
@@ -1217,8 +1229,19 @@ package router
 //@   callsite ReadFrom?: [C01:request-body-read-through-the-64k-limit] arg1 == gLR && gN == 65535
 //@   callsite GetBuf?: [C01:bounded-decode-buffer] arg0 <= 65535
 //@ func (h *fasthttpHandler) HandleFastHTTP(ctx *fasthttp.RequestCtx)
-//@   props C03 C20 C01 C09
+//@   props C03 C20 C01 C09 C15
 //@   requires h != nil && routerReady(h.r) && h.logger != nil && ctx != nil
+//@   ghost gAdm error = nil
+//@   ghost nAsk int = 0
+//@   ghost gCode int = 0
+//@   ghost nRd int = 0
+//@   oncall limiterAllowN: nAsk = nAsk + 1
+//@   aftercall limiterAllowN: gAdm = ret0
+//@   oncall SetStatusCode?: gCode = arg1
+//@   oncall readReqMsg?: nRd = nRd + 1
+//@   ensures [C15:refused-request-gets-503-and-nothing-else] nAsk == 1 && gAdm != nil ==> gCode == 503 && nRd == 0 && nH == 0 && nW == 0
+//@   callsite limiterAllowN: [C15:query-cost-charged-to-the-client] arg0 == h.r && arg1 == remoteAddr.ip && arg2 == 2
+//@   callsite readReqMsg?: [C15:only-admitted-requests-are-read] nAsk == 1 && gAdm == nil
 //@   ghost nH int = 0
 //@   ghost nW int = 0
 //@   ghost gB pool.Buffer = nil
